@@ -78,117 +78,119 @@ func (c *Ctx) ruleSitesIMM() {
 	sites := c.sitesOf("immutable")
 	perCode := map[string]int{}
 	for _, s := range sites {
-		si := c.buildSiteInfo(s)
-		perCode[s.Code]++
-		c.checkFlow(si, rule)
-		receiverForm := false
-		for _, k := range c.astKinds(si) {
-			if strings.HasPrefix(k, "StarExpr<") {
-				receiverForm = true
-			}
-		}
-		var detail string
-		// ---- exemption: not inside a declared constructor of the type, in the type's own package
-		exempt := si.take("exemption", func(l Lit) bool { return c.isExemption(l, &detail) })
-		if detail == "" {
-			detail = "no guard of the form !(pkg(T)==pass.Pkg.Path() && constructors.Match(pkg(T), enclosingFunc, name(T)))"
-		}
-		c.require(si, rule, "CTOR-EXEMPTION(-)", exempt, detail)
-
-		if !receiverForm {
-			detail = ""
-			nm := si.take("named", c.namedAssertPred(true, &detail))
-			if detail == "" {
-				detail = "no comma-ok assertion to *types.Named on the resolved type"
-			}
-			c.require(si, rule, "TYPE-RESOLVE(+)", nm, detail)
-
-			detail = "no positive immutableTypes.Contains(pkg(T), name(T)) on an index built by BuildImmutableTypesIndex"
-			imm := si.take("immutable-index", c.indexCallPred(fnContains, "indexing.BuildImmutableTypesIndex", true, func(call *ssa.Call) (bool, string) {
-				return c.typeKeyArgs(call.Call.Args[1], call.Call.Args[2])
-			}, &detail))
-			c.require(si, rule, "IMMUTABLE-INDEX(+)", imm, detail)
-
-			detail = "no negative mutableFields.Match(pkg(T), selector.Sel.Name, name(T)) on an index built by BuildMutableFieldsIndex"
-			mut := si.take("mutable-index", c.indexCallPred(fnMatch, "indexing.BuildMutableFieldsIndex", false, func(call *ssa.Call) (bool, string) {
-				if ok, why := c.typeKeyArgs(call.Call.Args[1], call.Call.Args[3]); !ok {
-					return false, why
+		c.inSiteContext(s, func() {
+			si := c.buildSiteInfo(s)
+			perCode[s.Code]++
+			c.checkFlow(si, rule)
+			receiverForm := false
+			for _, k := range c.astKinds(si) {
+				if strings.HasPrefix(k, "StarExpr<") {
+					receiverForm = true
 				}
-				// field name: <SelectorExpr>.Sel.Name
-				okf := c.rootsAre(call.Call.Args[2], func(r ssa.Value) bool {
-					id := fieldLoad(r, "go/ast.Ident", "Name")
-					if id == nil {
+			}
+			var detail string
+			// ---- exemption: not inside a declared constructor of the type, in the type's own package
+			exempt := si.take("exemption", func(l Lit) bool { return c.isExemption(l, &detail) })
+			if detail == "" {
+				detail = "no guard of the form !(pkg(T)==pass.Pkg.Path() && constructors.Match(pkg(T), enclosingFunc, name(T)))"
+			}
+			c.require(si, rule, "CTOR-EXEMPTION(-)", exempt, detail)
+
+			if !receiverForm {
+				detail = ""
+				nm := si.take("named", c.namedAssertPred(true, &detail))
+				if detail == "" {
+					detail = "no comma-ok assertion to *types.Named on the resolved type"
+				}
+				c.require(si, rule, "TYPE-RESOLVE(+)", nm, detail)
+
+				detail = "no positive immutableTypes.Contains(pkg(T), name(T)) on an index built by BuildImmutableTypesIndex"
+				imm := si.take("immutable-index", c.indexCallPred(fnContains, "indexing.BuildImmutableTypesIndex", true, func(call *ssa.Call) (bool, string) {
+					return c.typeKeyArgs(call.Call.Args[1], call.Call.Args[2])
+				}, &detail))
+				c.require(si, rule, "IMMUTABLE-INDEX(+)", imm, detail)
+
+				detail = "no negative mutableFields.Match(pkg(T), selector.Sel.Name, name(T)) on an index built by BuildMutableFieldsIndex"
+				mut := si.take("mutable-index", c.indexCallPred(fnMatch, "indexing.BuildMutableFieldsIndex", false, func(call *ssa.Call) (bool, string) {
+					if ok, why := c.typeKeyArgs(call.Call.Args[1], call.Call.Args[3]); !ok {
+						return false, why
+					}
+					// field name: <SelectorExpr>.Sel.Name
+					okf := c.rootsAre(call.Call.Args[2], func(r ssa.Value) bool {
+						id := fieldLoad(r, "go/ast.Ident", "Name")
+						if id == nil {
+							return false
+						}
+						return P.RootsAllDeep(id, func(b ssa.Value) bool { return fieldLoad(b, "go/ast.SelectorExpr", "Sel") != nil })
+					})
+					if !okf {
+						return false, "field-name argument of mutableFields.Match is not selector.Sel.Name: " + short(P.DescDeep(call.Call.Args[2]))
+					}
+					return true, ""
+				}, &detail))
+				c.require(si, rule, "MUTABLE-FIELD(-)", mut, detail)
+			} else {
+				// receiver forms: *r = v / *r++ inside a method of an immutable type
+				detail = "no positive immutableTypes.Contains(receiver pkg, receiver type)"
+				imm := si.take("immutable-index", c.indexCallPred(fnContains, "indexing.BuildImmutableTypesIndex", true, func(call *ssa.Call) (bool, string) {
+					return c.typeKeyArgs(call.Call.Args[1], call.Call.Args[2])
+				}, &detail))
+				c.require(si, rule, "IMMUTABLE-INDEX(+)", imm, detail)
+				// identity of the receiver by object (NAMEID)
+				ident := si.take("receiver-object", func(l Lit) bool {
+					if l.Kind != "eq" || !l.Pos {
 						return false
 					}
-					return P.RootsAllDeep(id, func(b ssa.Value) bool { return fieldLoad(b, "go/ast.SelectorExpr", "Sel") != nil })
+					isUses := func(v ssa.Value) bool {
+						return P.RootsAllDeep(v, func(r ssa.Value) bool {
+							lk, ok := r.(*ssa.Lookup)
+							return ok && P.RootsAllDeep(lk.X, func(m ssa.Value) bool { return fieldLoad(m, "go/types.Info", "Uses") != nil })
+						})
+					}
+					isDefs := func(v ssa.Value) bool {
+						return P.RootsAllDeep(v, func(r ssa.Value) bool {
+							if cs, ok := r.(*ssa.Const); ok && cs.Value == nil {
+								return true // receiverInfo literal elsewhere without obj: zero
+							}
+							lk, ok := r.(*ssa.Lookup)
+							return ok && P.RootsAllDeep(lk.X, func(m ssa.Value) bool { return fieldLoad(m, "go/types.Info", "Defs") != nil })
+						})
+					}
+					return (isUses(l.X) && isDefs(l.Y)) || (isUses(l.Y) && isDefs(l.X))
 				})
-				if !okf {
-					return false, "field-name argument of mutableFields.Match is not selector.Sel.Name: " + short(P.DescDeep(call.Call.Args[2]))
-				}
-				return true, ""
-			}, &detail))
-			c.require(si, rule, "MUTABLE-FIELD(-)", mut, detail)
-		} else {
-			// receiver forms: *r = v / *r++ inside a method of an immutable type
-			detail = "no positive immutableTypes.Contains(receiver pkg, receiver type)"
-			imm := si.take("immutable-index", c.indexCallPred(fnContains, "indexing.BuildImmutableTypesIndex", true, func(call *ssa.Call) (bool, string) {
-				return c.typeKeyArgs(call.Call.Args[1], call.Call.Args[2])
-			}, &detail))
-			c.require(si, rule, "IMMUTABLE-INDEX(+)", imm, detail)
-			// identity of the receiver by object (NAMEID)
-			ident := si.take("receiver-object", func(l Lit) bool {
-				if l.Kind != "eq" || !l.Pos {
-					return false
-				}
-				isUses := func(v ssa.Value) bool {
-					return P.RootsAllDeep(v, func(r ssa.Value) bool {
-						lk, ok := r.(*ssa.Lookup)
-						return ok && P.RootsAllDeep(lk.X, func(m ssa.Value) bool { return fieldLoad(m, "go/types.Info", "Uses") != nil })
-					})
-				}
-				isDefs := func(v ssa.Value) bool {
-					return P.RootsAllDeep(v, func(r ssa.Value) bool {
-						if cs, ok := r.(*ssa.Const); ok && cs.Value == nil {
-							return true // receiverInfo literal elsewhere without obj: zero
-						}
-						lk, ok := r.(*ssa.Lookup)
-						return ok && P.RootsAllDeep(lk.X, func(m ssa.Value) bool { return fieldLoad(m, "go/types.Info", "Defs") != nil })
-					})
-				}
-				return (isUses(l.X) && isDefs(l.Y)) || (isUses(l.Y) && isDefs(l.X))
-			})
-			c.require(si, rule, "RECEIVER-BY-OBJECT(+)", ident, "the `*x` operand is not compared with the receiver *object* (TypesInfo.Uses[ident] == TypesInfo.Defs[recv]); a shadowing local with the receiver's name would be reported")
-			// same-name comparison is implied by object identity
-			si.take("receiver-name", func(l Lit) bool {
-				if l.Kind != "eq" || !l.Pos {
-					return false
-				}
-				return fieldLoad(firstRoot(P, l.X), "go/ast.Ident", "Name") != nil || fieldLoad(firstRoot(P, l.Y), "go/ast.Ident", "Name") != nil
-			})
-		}
-		// ---- dispatch
-		switch {
-		case receiverForm && s.Code == "IMM01":
-			c.dispatch(si, rule, []string{"AssignStmt<node>", "StarExpr<AssignStmt.Lhs[]>", "Ident<StarExpr.X>"})
-			c.require(si, rule, "TOK(=)", si.take("tok", func(l Lit) bool { return l.Pos && tokAtom(l, "go/ast.AssignStmt", token.ASSIGN) }), "IMM01 must be reported for plain assignment (Tok == ASSIGN) only")
-		case receiverForm && s.Code == "IMM03":
-			c.dispatch(si, rule, []string{"IncDecStmt<node>", "StarExpr<IncDecStmt.X>", "Ident<StarExpr.X>"})
-		case s.Code == "IMM01":
-			c.dispatch(si, rule, []string{"AssignStmt<node>", "SelectorExpr<AssignStmt.Lhs[]>"})
-			c.require(si, rule, "TOK(=)", si.take("tok", func(l Lit) bool { return l.Pos && tokAtom(l, "go/ast.AssignStmt", token.ASSIGN) }), "IMM01 must be reported for plain assignment (Tok == ASSIGN) only")
-		case s.Code == "IMM04":
-			c.dispatch(si, rule, []string{"AssignStmt<node>", "IndexExpr<AssignStmt.Lhs[]>", "SelectorExpr<IndexExpr.X>"})
-			c.require(si, rule, "TOK(=)", si.take("tok", func(l Lit) bool { return l.Pos && tokAtom(l, "go/ast.AssignStmt", token.ASSIGN) }), "IMM04 must be reported for plain assignment (Tok == ASSIGN) only")
-		case s.Code == "IMM02":
-			c.dispatch(si, rule, []string{"AssignStmt<node>", "SelectorExpr<AssignStmt.Lhs[]>"})
-			c.require(si, rule, "TOK(op=)", si.take("tok", func(l Lit) bool { return !l.Pos && tokAtom(l, "go/ast.AssignStmt", token.ASSIGN) }), "IMM02 must be reported for compound assignment (Tok != ASSIGN) only")
-		case s.Code == "IMM03":
-			c.dispatch(si, rule, []string{"IncDecStmt<node>", "SelectorExpr<IncDecStmt.X>"})
-		default:
-			c.fail(rule+"/SITE-CODE", si.Name, P.Pos(s.Alloc.Pos()), "immutable report site with unexpected code "+s.Code)
-		}
-		c.checkSitePos(si, rule)
-		c.finishSite(si, rule)
+				c.require(si, rule, "RECEIVER-BY-OBJECT(+)", ident, "the `*x` operand is not compared with the receiver *object* (TypesInfo.Uses[ident] == TypesInfo.Defs[recv]); a shadowing local with the receiver's name would be reported")
+				// same-name comparison is implied by object identity
+				si.take("receiver-name", func(l Lit) bool {
+					if l.Kind != "eq" || !l.Pos {
+						return false
+					}
+					return fieldLoad(firstRoot(P, l.X), "go/ast.Ident", "Name") != nil || fieldLoad(firstRoot(P, l.Y), "go/ast.Ident", "Name") != nil
+				})
+			}
+			// ---- dispatch
+			switch {
+			case receiverForm && s.Code == "IMM01":
+				c.dispatch(si, rule, []string{"AssignStmt<node>", "StarExpr<AssignStmt.Lhs[]>", "Ident<StarExpr.X>"})
+				c.require(si, rule, "TOK(=)", si.take("tok", func(l Lit) bool { return l.Pos && tokAtom(l, "go/ast.AssignStmt", token.ASSIGN) }), "IMM01 must be reported for plain assignment (Tok == ASSIGN) only")
+			case receiverForm && s.Code == "IMM03":
+				c.dispatch(si, rule, []string{"IncDecStmt<node>", "StarExpr<IncDecStmt.X>", "Ident<StarExpr.X>"})
+			case s.Code == "IMM01":
+				c.dispatch(si, rule, []string{"AssignStmt<node>", "SelectorExpr<AssignStmt.Lhs[]>"})
+				c.require(si, rule, "TOK(=)", si.take("tok", func(l Lit) bool { return l.Pos && tokAtom(l, "go/ast.AssignStmt", token.ASSIGN) }), "IMM01 must be reported for plain assignment (Tok == ASSIGN) only")
+			case s.Code == "IMM04":
+				c.dispatch(si, rule, []string{"AssignStmt<node>", "IndexExpr<AssignStmt.Lhs[]>", "SelectorExpr<IndexExpr.X>"})
+				c.require(si, rule, "TOK(=)", si.take("tok", func(l Lit) bool { return l.Pos && tokAtom(l, "go/ast.AssignStmt", token.ASSIGN) }), "IMM04 must be reported for plain assignment (Tok == ASSIGN) only")
+			case s.Code == "IMM02":
+				c.dispatch(si, rule, []string{"AssignStmt<node>", "SelectorExpr<AssignStmt.Lhs[]>"})
+				c.require(si, rule, "TOK(op=)", si.take("tok", func(l Lit) bool { return !l.Pos && tokAtom(l, "go/ast.AssignStmt", token.ASSIGN) }), "IMM02 must be reported for compound assignment (Tok != ASSIGN) only")
+			case s.Code == "IMM03":
+				c.dispatch(si, rule, []string{"IncDecStmt<node>", "SelectorExpr<IncDecStmt.X>"})
+			default:
+				c.fail(rule+"/SITE-CODE", si.Name, P.Pos(s.Alloc.Pos()), "immutable report site with unexpected code "+s.Code)
+			}
+			c.checkSitePos(si, rule)
+			c.finishSite(si, rule)
+		})
 	}
 	for _, code := range []string{"IMM01", "IMM02", "IMM03", "IMM04"} {
 		c.floor("report sites with code "+code, perCode[code], 1)
@@ -372,121 +374,123 @@ func (c *Ctx) ruleSitesCTOR() {
 	sites := c.sitesOf("constructor")
 	perCode := map[string]int{}
 	for _, s := range sites {
-		si := c.buildSiteInfo(s)
-		perCode[s.Code]++
-		c.checkFlow(si, rule)
-		var detail string
-		exempt := si.take("exemption", func(l Lit) bool { return c.isExemption(l, &detail) })
-		if detail == "" {
-			detail = "no guard of the form !(pkg(T)==pass.Pkg.Path() && constructors.Match(pkg(T), enclosingFunc, name(T)))"
-		}
-		c.require(si, rule, "CTOR-EXEMPTION(-)", exempt, detail)
+		c.inSiteContext(s, func() {
+			si := c.buildSiteInfo(s)
+			perCode[s.Code]++
+			c.checkFlow(si, rule)
+			var detail string
+			exempt := si.take("exemption", func(l Lit) bool { return c.isExemption(l, &detail) })
+			if detail == "" {
+				detail = "no guard of the form !(pkg(T)==pass.Pkg.Path() && constructors.Match(pkg(T), enclosingFunc, name(T)))"
+			}
+			c.require(si, rule, "CTOR-EXEMPTION(-)", exempt, detail)
 
-		detail = ""
-		nm := si.take("named", c.namedAssertPred(s.Code == "CTOR01", &detail))
-		if detail == "" {
-			detail = "no comma-ok assertion to *types.Named on the resolved type"
-		}
-		c.require(si, rule, "TYPE-RESOLVE(+)", nm, detail)
+			detail = ""
+			nm := si.take("named", c.namedAssertPred(s.Code == "CTOR01", &detail))
+			if detail == "" {
+				detail = "no comma-ok assertion to *types.Named on the resolved type"
+			}
+			c.require(si, rule, "TYPE-RESOLVE(+)", nm, detail)
 
-		detail = "no positive constructors.HasType(pkg(T), name(T)) on an index built by BuildConstructorIndex"
-		ht := si.take("ctor-index", c.indexCallPred(fnHasType, "indexing.BuildConstructorIndex", true, func(call *ssa.Call) (bool, string) {
-			return c.typeKeyArgs(call.Call.Args[1], call.Call.Args[2])
-		}, &detail))
-		c.require(si, rule, "CONSTRUCTOR-INDEX(+)", ht, detail)
+			detail = "no positive constructors.HasType(pkg(T), name(T)) on an index built by BuildConstructorIndex"
+			ht := si.take("ctor-index", c.indexCallPred(fnHasType, "indexing.BuildConstructorIndex", true, func(call *ssa.Call) (bool, string) {
+				return c.typeKeyArgs(call.Call.Args[1], call.Call.Args[2])
+			}, &detail))
+			c.require(si, rule, "CONSTRUCTOR-INDEX(+)", ht, detail)
 
-		switch s.Code {
-		case "CTOR01":
-			c.dispatch(si, rule, []string{"CompositeLit<node>"})
-		case "CTOR02":
-			c.dispatch(si, rule, []string{"CallExpr<node>", "Ident<CallExpr.Fun>"})
-			nw := si.take("new", func(l Lit) bool {
-				if l.Kind != "eq" || !l.Pos {
-					return false
-				}
-				for _, pr := range [][2]ssa.Value{{l.X, l.Y}, {l.Y, l.X}} {
-					if cs, ok := pr[0].(*ssa.Const); ok && cs.Value != nil && cs.Value.ExactString() == `"new"` && fieldLoad(firstRoot(P, pr[1]), "go/ast.Ident", "Name") != nil {
-						return true
-					}
-				}
-				return false
-			})
-			c.require(si, rule, "CALLEE-IS-NEW(+)", nw, "the called identifier is not compared with \"new\"")
-			one := si.take("one-arg", func(l Lit) bool {
-				if l.Kind != "eq" || !l.Pos {
-					return false
-				}
-				for _, pr := range [][2]ssa.Value{{l.X, l.Y}, {l.Y, l.X}} {
-					if cs, ok := pr[0].(*ssa.Const); ok && cs.Value != nil && cs.Value.ExactString() == "1" && lenOf(pr[1]) != nil {
-						return true
-					}
-				}
-				return false
-			})
-			c.require(si, rule, "ONE-ARG(+)", one, "len(call.Args) == 1 guard missing before call.Args[0]")
-		case "CTOR03":
-			c.dispatch(si, rule, []string{"GenDecl<node>", "ValueSpec<GenDecl.Specs[]>"})
-			c.require(si, rule, "TOK(var)", si.take("tok", func(l Lit) bool { return l.Pos && tokAtom(l, "go/ast.GenDecl", token.VAR) }), "CTOR03 must be reported for var declarations (GenDecl.Tok == VAR) only")
-			noInit := si.take("no-initialiser", func(l Lit) bool {
-				// len(valueSpec.Values) > 0 is false:  -lt(const 0, len(Values))  or +eq(len(Values), 0)
-				isValuesLen := func(v ssa.Value) bool {
-					x := lenOf(v)
-					return x != nil && fieldLoad(firstRoot(P, x), "go/ast.ValueSpec", "Values") != nil
-				}
-				isZero := func(v ssa.Value) bool {
-					cs, ok := v.(*ssa.Const)
-					return ok && cs.Value != nil && cs.Value.ExactString() == "0"
-				}
-				if l.Kind == "lt" && !l.Pos && isZero(l.X) && isValuesLen(l.Y) {
-					return true
-				}
-				if l.Kind == "eq" && l.Pos && ((isZero(l.X) && isValuesLen(l.Y)) || (isZero(l.Y) && isValuesLen(l.X))) {
-					return true
-				}
-				return false
-			})
-			c.require(si, rule, "NO-INITIALISER(+)", noInit, "only `var x T` without initialiser is CTOR03; the len(valueSpec.Values) > 0 skip is missing or altered")
-			blank := si.take("not-blank", func(l Lit) bool {
-				if l.Kind != "eq" || l.Pos {
-					return false
-				}
-				for _, pr := range [][2]ssa.Value{{l.X, l.Y}, {l.Y, l.X}} {
-					if cs, ok := pr[0].(*ssa.Const); ok && cs.Value != nil && cs.Value.ExactString() == `"_"` && fieldLoad(firstRoot(P, pr[1]), "go/ast.Ident", "Name") != nil {
-						return true
-					}
-				}
-				return false
-			})
-			c.require(si, rule, "NOT-BLANK(-)", blank, "blank identifiers must not be reported (name.Name == \"_\" skip missing)")
-			ptr := si.take("not-pointer", func(l Lit) bool {
-				x, t, _ := typeAssertOK(l)
-				if x == nil || l.Pos || typeStr(t) != "*go/types.Pointer" {
-					return false
-				}
-				return P.RootsAllDeep(x, func(r ssa.Value) bool { return P.CallTo(r, "go/types.Unalias") != nil })
-			})
-			if len(ptr) == 0 {
-				// equivalent: the *types.Named assertion is made on the un-aliased declared type WITHOUT stripping a
-				// pointer, so pointer-typed variables fail the assertion and are skipped
-				noStrip := si.take("not-pointer-implicit", func(l Lit) bool {
-					x, t, _ := typeAssertOK(l)
-					if x == nil || !l.Pos || typeStr(t) != "*go/types.Named" {
+			switch s.Code {
+			case "CTOR01":
+				c.dispatch(si, rule, []string{"CompositeLit<node>"})
+			case "CTOR02":
+				c.dispatch(si, rule, []string{"CallExpr<node>", "Ident<CallExpr.Fun>"})
+				nw := si.take("new", func(l Lit) bool {
+					if l.Kind != "eq" || !l.Pos {
 						return false
 					}
-					return P.RootsAllDeep(x, func(r ssa.Value) bool {
-						call := P.CallTo(r, "go/types.Unalias")
-						return call != nil && !P.RootsAny(call.Call.Args[0], func(a ssa.Value) bool { return P.CallTo(a, "(*go/types.Pointer).Elem") != nil })
-					})
+					for _, pr := range [][2]ssa.Value{{l.X, l.Y}, {l.Y, l.X}} {
+						if cs, ok := pr[0].(*ssa.Const); ok && cs.Value != nil && cs.Value.ExactString() == `"new"` && fieldLoad(firstRoot(P, pr[1]), "go/ast.Ident", "Name") != nil {
+							return true
+						}
+					}
+					return false
 				})
-				ptr = noStrip
+				c.require(si, rule, "CALLEE-IS-NEW(+)", nw, "the called identifier is not compared with \"new\"")
+				one := si.take("one-arg", func(l Lit) bool {
+					if l.Kind != "eq" || !l.Pos {
+						return false
+					}
+					for _, pr := range [][2]ssa.Value{{l.X, l.Y}, {l.Y, l.X}} {
+						if cs, ok := pr[0].(*ssa.Const); ok && cs.Value != nil && cs.Value.ExactString() == "1" && lenOf(pr[1]) != nil {
+							return true
+						}
+					}
+					return false
+				})
+				c.require(si, rule, "ONE-ARG(+)", one, "len(call.Args) == 1 guard missing before call.Args[0]")
+			case "CTOR03":
+				c.dispatch(si, rule, []string{"GenDecl<node>", "ValueSpec<GenDecl.Specs[]>"})
+				c.require(si, rule, "TOK(var)", si.take("tok", func(l Lit) bool { return l.Pos && tokAtom(l, "go/ast.GenDecl", token.VAR) }), "CTOR03 must be reported for var declarations (GenDecl.Tok == VAR) only")
+				noInit := si.take("no-initialiser", func(l Lit) bool {
+					// len(valueSpec.Values) > 0 is false:  -lt(const 0, len(Values))  or +eq(len(Values), 0)
+					isValuesLen := func(v ssa.Value) bool {
+						x := lenOf(v)
+						return x != nil && fieldLoad(firstRoot(P, x), "go/ast.ValueSpec", "Values") != nil
+					}
+					isZero := func(v ssa.Value) bool {
+						cs, ok := v.(*ssa.Const)
+						return ok && cs.Value != nil && cs.Value.ExactString() == "0"
+					}
+					if l.Kind == "lt" && !l.Pos && isZero(l.X) && isValuesLen(l.Y) {
+						return true
+					}
+					if l.Kind == "eq" && l.Pos && ((isZero(l.X) && isValuesLen(l.Y)) || (isZero(l.Y) && isValuesLen(l.X))) {
+						return true
+					}
+					return false
+				})
+				c.require(si, rule, "NO-INITIALISER(+)", noInit, "only `var x T` without initialiser is CTOR03; the len(valueSpec.Values) > 0 skip is missing or altered")
+				blank := si.take("not-blank", func(l Lit) bool {
+					if l.Kind != "eq" || l.Pos {
+						return false
+					}
+					for _, pr := range [][2]ssa.Value{{l.X, l.Y}, {l.Y, l.X}} {
+						if cs, ok := pr[0].(*ssa.Const); ok && cs.Value != nil && cs.Value.ExactString() == `"_"` && fieldLoad(firstRoot(P, pr[1]), "go/ast.Ident", "Name") != nil {
+							return true
+						}
+					}
+					return false
+				})
+				c.require(si, rule, "NOT-BLANK(-)", blank, "blank identifiers must not be reported (name.Name == \"_\" skip missing)")
+				ptr := si.take("not-pointer", func(l Lit) bool {
+					x, t, _ := typeAssertOK(l)
+					if x == nil || l.Pos || typeStr(t) != "*go/types.Pointer" {
+						return false
+					}
+					return P.RootsAllDeep(x, func(r ssa.Value) bool { return P.CallTo(r, "go/types.Unalias") != nil })
+				})
+				if len(ptr) == 0 {
+					// equivalent: the *types.Named assertion is made on the un-aliased declared type WITHOUT stripping a
+					// pointer, so pointer-typed variables fail the assertion and are skipped
+					noStrip := si.take("not-pointer-implicit", func(l Lit) bool {
+						x, t, _ := typeAssertOK(l)
+						if x == nil || !l.Pos || typeStr(t) != "*go/types.Named" {
+							return false
+						}
+						return P.RootsAllDeep(x, func(r ssa.Value) bool {
+							call := P.CallTo(r, "go/types.Unalias")
+							return call != nil && !P.RootsAny(call.Call.Args[0], func(a ssa.Value) bool { return P.CallTo(a, "(*go/types.Pointer).Elem") != nil })
+						})
+					})
+					ptr = noStrip
+				}
+				c.require(si, rule, "NOT-POINTER(-)", ptr, "pointer-typed variables must not be reported (neither a skip on un-aliased *types.Pointer nor a Named assertion on the unstripped type)")
+				// the variable's type is taken from the declared name
+			default:
+				c.fail(rule+"/SITE-CODE", si.Name, P.Pos(s.Alloc.Pos()), "constructor report site with unexpected code "+s.Code)
 			}
-			c.require(si, rule, "NOT-POINTER(-)", ptr, "pointer-typed variables must not be reported (neither a skip on un-aliased *types.Pointer nor a Named assertion on the unstripped type)")
-			// the variable's type is taken from the declared name
-		default:
-			c.fail(rule+"/SITE-CODE", si.Name, P.Pos(s.Alloc.Pos()), "constructor report site with unexpected code "+s.Code)
-		}
-		c.checkSitePos(si, rule)
-		c.finishSite(si, rule)
+			c.checkSitePos(si, rule)
+			c.finishSite(si, rule)
+		})
 	}
 	for _, code := range []string{"CTOR01", "CTOR02", "CTOR03"} {
 		c.floor("report sites with code "+code, perCode[code], 1)
@@ -533,6 +537,20 @@ func (c *Ctx) ignoreGatePred(codeOK, posOK func(v ssa.Value) bool, detail *strin
 	}
 }
 
+// inSiteContext evaluates the rules of one report site in the calling context of the function that creates the
+// violation: helpers that function shares with its siblings are pinned to the call made from it.
+func (c *Ctx) inSiteContext(s *ReportSite, f func()) {
+	top := s.Fn
+	for top.Parent() != nil {
+		top = top.Parent()
+	}
+	pins, _ := c.P.ContextPins(top)
+	// a helper that merely CREATES the violation for several callers (the site is analysed once per caller, Via)
+	// must not be pinned itself
+	delete(pins, top)
+	c.P.PinnedAll(pins, f)
+}
+
 // notTestFileLit: !strings.HasSuffix(<name of the walked file>, "_test.go").
 func (c *Ctx) notTestFileLit(l Lit) bool {
 	call := c.P.litCallTo(l, "strings.HasSuffix")
@@ -551,142 +569,144 @@ func (c *Ctx) ruleSitesTONL() {
 	sites := c.sitesOf("testonly")
 	perCode := map[string]int{}
 	for _, s := range sites {
-		si := c.buildSiteInfo(s)
-		perCode[s.Code]++
-		c.checkFlow(si, rule)
-		var detail string
+		c.inSiteContext(s, func() {
+			si := c.buildSiteInfo(s)
+			perCode[s.Code]++
+			c.checkFlow(si, rule)
+			var detail string
 
-		// ---- not in a _test.go file, whatever the configuration (C03, C14)
-		tf := si.take("test-file", c.notTestFileLit)
-		si.take("test-file", func(l Lit) bool {
-			call := litCall(l)
-			return call != nil && !l.Pos && call.Call.StaticCallee() != nil && FuncName(call.Call.StaticCallee()) == "testonly.isTestFile"
-		})
-		c.require(si, rule, "NOT-TEST-FILE(-)", tf, "no guard !strings.HasSuffix(<name of the walked file>, \"_test.go\") on the path to this report: uses in test files would be reported")
-
-		// ---- ignore gate at detection time, on this very violation
-		detail = "no guard !ignoreSet.Contains(v.Code, v.Pos) between the detection and the report (the reporter of this package is created without an ignore set)"
-		vt := "testonly.TestOnlyViolation"
-		gate := si.take("ignore-gate", c.ignoreGatePred(
-			func(v ssa.Value) bool {
-				return P.RootsAll(v, func(r ssa.Value) bool { return fieldLoad(r, vt, "Code") != nil })
-			},
-			func(v ssa.Value) bool {
-				return P.RootsAll(v, func(r ssa.Value) bool { return fieldLoad(r, vt, "Pos") != nil })
-			}, &detail))
-		c.require(si, rule, "IGNORE-GATE(-)", gate, detail)
-
-		// ---- membership
-		kinds := c.astKinds(si)
-		_ = kinds
-		detail = ""
-		switch s.Code {
-		case "TONL02":
-			detail = "no positive testOnlyFuncs.Match(pkg, name, name) on an index built by BuildTestOnlyFuncsIndex"
-			var viaPkgName, direct bool
-			mem := si.take("funcs-index", c.indexCallPred(fnMatch, "indexing.BuildTestOnlyFuncsIndex", true, func(call *ssa.Call) (bool, string) {
-				a := call.Call.Args
-				if P.Desc(a[2]) != P.Desc(a[3]) {
-					return false, "function index is keyed (name, name) but queried with two different names"
-				}
-				if !c.rootsAre(a[2], func(r ssa.Value) bool { return fieldLoad(r, "go/ast.Ident", "Name") != nil }) {
-					return false, "queried function name is not the called identifier's name"
-				}
-				if P.isPassPkgCall(a[1], "Path") {
-					direct = true
-					return true, ""
-				}
-				if c.rootsAre(a[1], func(r ssa.Value) bool {
-					pc := P.CallTo(r, "(*go/types.Package).Path")
-					return pc != nil && P.RootsAllDeep(pc.Call.Args[0], func(q ssa.Value) bool { return P.CallTo(q, "(*go/types.PkgName).Imported") != nil })
-				}) {
-					viaPkgName = true
-					return true, ""
-				}
-				return false, "package argument is neither pass.Pkg.Path() nor <PkgName>.Imported().Path(): " + short(P.DescDeep(a[1]))
-			}, &detail))
-			c.require(si, rule, "FUNCS-INDEX(+)", mem, detail)
-			if direct {
-				c.dispatch(si, rule, []string{"CallExpr<node>", "Ident<CallExpr.Fun>"})
-				// NAMEID: the identifier resolves to a package-level function of this package
-				nid := si.take("callee-object", func(l Lit) bool { return l.Pos && c.isPkgLevelFuncTest(l) })
-				c.require(si, rule, "CALLEE-BY-OBJECT(+)", nid, "direct call is matched by the spelling of the identifier only (no TypesInfo.Uses[ident].(*types.Func) at package scope): a local variable or parameter sharing the name is reported")
-			} else if viaPkgName {
-				c.dispatch(si, rule, []string{"CallExpr<node>", "SelectorExpr<CallExpr.Fun>", "Ident<SelectorExpr.X>"})
-				pn := si.take("pkgname", func(l Lit) bool {
-					x, t, _ := typeAssertOK(l)
-					return x != nil && l.Pos && typeStr(t) == "*go/types.PkgName"
-				})
-				c.require(si, rule, "QUALIFIER-IS-PACKAGE(+)", pn, "qualified call: the qualifier must resolve to a *types.PkgName")
-			}
-		case "TONL03":
-			detail = "no positive testOnlyMethods.Match(pkg(T), method, name(T)) on an index built by BuildTestOnlyMethodsIndex"
-			mem := si.take("methods-index", c.indexCallPred(fnMatch, "indexing.BuildTestOnlyMethodsIndex", true, func(call *ssa.Call) (bool, string) {
-				a := call.Call.Args
-				if ok, why := c.typeKeyArgs(a[1], a[3]); !ok {
-					return false, why
-				}
-				if !c.rootsAre(a[2], func(r ssa.Value) bool {
-					id := fieldLoad(r, "go/ast.Ident", "Name")
-					return id != nil && P.RootsAllDeep(id, func(b ssa.Value) bool { return fieldLoad(b, "go/ast.SelectorExpr", "Sel") != nil })
-				}) {
-					return false, "method name is not selector.Sel.Name"
-				}
-				return true, ""
-			}, &detail))
-			c.require(si, rule, "METHODS-INDEX(+)", mem, detail)
-			c.dispatch(si, rule, []string{"CallExpr<node>", "SelectorExpr<CallExpr.Fun>"})
-		case "TONL01":
-			c.tonl01Dispatch(si, rule)
-			detail = "no positive testOnlyTypes.Contains(pkg(T), name(T)) on an index built by BuildTestOnlyTypesIndex"
-			mem := si.take("types-index", c.indexCallPred(fnContains, "indexing.BuildTestOnlyTypesIndex", true, func(call *ssa.Call) (bool, string) {
-				return c.typeKeyArgs(call.Call.Args[1], call.Call.Args[2])
-			}, &detail))
-			c.require(si, rule, "TYPES-INDEX(+)", mem, detail)
-			// once per file and type: dedup keyed by package path AND type name
-			dd := si.take("dedup", func(l Lit) bool {
-				if l.Kind != "cond" || l.Pos || l.Val == nil {
-					return false
-				}
-				lk, ok := l.Val.(*ssa.Lookup)
-				if !ok {
-					return false
-				}
-				_, callees := P.derives(lk.Index, func(ssa.Value) bool { return false }, 14)
-				if !hasCallee(callees, "(*go/types.Package).Path") || !hasCallee(callees, ").Name") {
-					detail = "TONL01 dedup key does not contain both the package path and the type name: a same-named @testonly type of another package is never reported"
-					return false
-				}
-				return true
+			// ---- not in a _test.go file, whatever the configuration (C03, C14)
+			tf := si.take("test-file", c.notTestFileLit)
+			si.take("test-file", func(l Lit) bool {
+				call := litCall(l)
+				return call != nil && !l.Pos && call.Call.StaticCallee() != nil && FuncName(call.Call.StaticCallee()) == "testonly.isTestFile"
 			})
-			if len(dd) == 0 && !strings.HasPrefix(detail, "TONL01 dedup") {
-				detail = "no once-per-file dedup guard (!reportedTypes[key]) on every TONL01 path"
-			}
-			c.require(si, rule, "DEDUP(-)", dd, detail)
-		}
-		// the method path excludes package qualifiers; other negative pkg-name tests are benign
-		si.take("not-pkgname", func(l Lit) bool {
-			isPN := func(q Lit) bool {
-				x, t, _ := typeAssertOK(q)
-				return x != nil && typeStr(t) == "*go/types.PkgName"
-			}
-			if isPN(l) {
-				return true
-			}
-			if l.Kind == "and" && !l.Pos {
-				for _, sl := range l.Subs {
-					x, t, _ := typeAssertOK(sl)
-					isAst := x != nil && strings.HasPrefix(typeStr(t), "*go/ast.")
-					if !isPN(sl) && !nilCheck(sl) && !isAst {
+			c.require(si, rule, "NOT-TEST-FILE(-)", tf, "no guard !strings.HasSuffix(<name of the walked file>, \"_test.go\") on the path to this report: uses in test files would be reported")
+
+			// ---- ignore gate at detection time, on this very violation
+			detail = "no guard !ignoreSet.Contains(v.Code, v.Pos) between the detection and the report (the reporter of this package is created without an ignore set)"
+			vt := "testonly.TestOnlyViolation"
+			gate := si.take("ignore-gate", c.ignoreGatePred(
+				func(v ssa.Value) bool {
+					return P.RootsAll(v, func(r ssa.Value) bool { return fieldLoad(r, vt, "Code") != nil })
+				},
+				func(v ssa.Value) bool {
+					return P.RootsAll(v, func(r ssa.Value) bool { return fieldLoad(r, vt, "Pos") != nil })
+				}, &detail))
+			c.require(si, rule, "IGNORE-GATE(-)", gate, detail)
+
+			// ---- membership
+			kinds := c.astKinds(si)
+			_ = kinds
+			detail = ""
+			switch s.Code {
+			case "TONL02":
+				detail = "no positive testOnlyFuncs.Match(pkg, name, name) on an index built by BuildTestOnlyFuncsIndex"
+				var viaPkgName, direct bool
+				mem := si.take("funcs-index", c.indexCallPred(fnMatch, "indexing.BuildTestOnlyFuncsIndex", true, func(call *ssa.Call) (bool, string) {
+					a := call.Call.Args
+					if P.Desc(a[2]) != P.Desc(a[3]) {
+						return false, "function index is keyed (name, name) but queried with two different names"
+					}
+					if !c.rootsAre(a[2], func(r ssa.Value) bool { return fieldLoad(r, "go/ast.Ident", "Name") != nil }) {
+						return false, "queried function name is not the called identifier's name"
+					}
+					if P.isPassPkgCall(a[1], "Path") {
+						direct = true
+						return true, ""
+					}
+					if c.rootsAre(a[1], func(r ssa.Value) bool {
+						pc := P.CallTo(r, "(*go/types.Package).Path")
+						return pc != nil && P.RootsAllDeep(pc.Call.Args[0], func(q ssa.Value) bool { return P.CallTo(q, "(*go/types.PkgName).Imported") != nil })
+					}) {
+						viaPkgName = true
+						return true, ""
+					}
+					return false, "package argument is neither pass.Pkg.Path() nor <PkgName>.Imported().Path(): " + short(P.DescDeep(a[1]))
+				}, &detail))
+				c.require(si, rule, "FUNCS-INDEX(+)", mem, detail)
+				if direct {
+					c.dispatch(si, rule, []string{"CallExpr<node>", "Ident<CallExpr.Fun>"})
+					// NAMEID: the identifier resolves to a package-level function of this package
+					nid := si.take("callee-object", func(l Lit) bool { return l.Pos && c.isPkgLevelFuncTest(l) })
+					c.require(si, rule, "CALLEE-BY-OBJECT(+)", nid, "direct call is matched by the spelling of the identifier only (no TypesInfo.Uses[ident].(*types.Func) at package scope): a local variable or parameter sharing the name is reported")
+				} else if viaPkgName {
+					c.dispatch(si, rule, []string{"CallExpr<node>", "SelectorExpr<CallExpr.Fun>", "Ident<SelectorExpr.X>"})
+					pn := si.take("pkgname", func(l Lit) bool {
+						x, t, _ := typeAssertOK(l)
+						return x != nil && l.Pos && typeStr(t) == "*go/types.PkgName"
+					})
+					c.require(si, rule, "QUALIFIER-IS-PACKAGE(+)", pn, "qualified call: the qualifier must resolve to a *types.PkgName")
+				}
+			case "TONL03":
+				detail = "no positive testOnlyMethods.Match(pkg(T), method, name(T)) on an index built by BuildTestOnlyMethodsIndex"
+				mem := si.take("methods-index", c.indexCallPred(fnMatch, "indexing.BuildTestOnlyMethodsIndex", true, func(call *ssa.Call) (bool, string) {
+					a := call.Call.Args
+					if ok, why := c.typeKeyArgs(a[1], a[3]); !ok {
+						return false, why
+					}
+					if !c.rootsAre(a[2], func(r ssa.Value) bool {
+						id := fieldLoad(r, "go/ast.Ident", "Name")
+						return id != nil && P.RootsAllDeep(id, func(b ssa.Value) bool { return fieldLoad(b, "go/ast.SelectorExpr", "Sel") != nil })
+					}) {
+						return false, "method name is not selector.Sel.Name"
+					}
+					return true, ""
+				}, &detail))
+				c.require(si, rule, "METHODS-INDEX(+)", mem, detail)
+				c.dispatch(si, rule, []string{"CallExpr<node>", "SelectorExpr<CallExpr.Fun>"})
+			case "TONL01":
+				c.tonl01Dispatch(si, rule)
+				detail = "no positive testOnlyTypes.Contains(pkg(T), name(T)) on an index built by BuildTestOnlyTypesIndex"
+				mem := si.take("types-index", c.indexCallPred(fnContains, "indexing.BuildTestOnlyTypesIndex", true, func(call *ssa.Call) (bool, string) {
+					return c.typeKeyArgs(call.Call.Args[1], call.Call.Args[2])
+				}, &detail))
+				c.require(si, rule, "TYPES-INDEX(+)", mem, detail)
+				// once per file and type: dedup keyed by package path AND type name
+				dd := si.take("dedup", func(l Lit) bool {
+					if l.Kind != "cond" || l.Pos || l.Val == nil {
 						return false
 					}
+					lk, ok := l.Val.(*ssa.Lookup)
+					if !ok {
+						return false
+					}
+					_, callees := P.derives(lk.Index, func(ssa.Value) bool { return false }, 14)
+					if !hasCallee(callees, "(*go/types.Package).Path") || !hasCallee(callees, ").Name") {
+						detail = "TONL01 dedup key does not contain both the package path and the type name: a same-named @testonly type of another package is never reported"
+						return false
+					}
+					return true
+				})
+				if len(dd) == 0 && !strings.HasPrefix(detail, "TONL01 dedup") {
+					detail = "no once-per-file dedup guard (!reportedTypes[key]) on every TONL01 path"
 				}
-				return true
+				c.require(si, rule, "DEDUP(-)", dd, detail)
 			}
-			return false
+			// the method path excludes package qualifiers; other negative pkg-name tests are benign
+			si.take("not-pkgname", func(l Lit) bool {
+				isPN := func(q Lit) bool {
+					x, t, _ := typeAssertOK(q)
+					return x != nil && typeStr(t) == "*go/types.PkgName"
+				}
+				if isPN(l) {
+					return true
+				}
+				if l.Kind == "and" && !l.Pos {
+					for _, sl := range l.Subs {
+						x, t, _ := typeAssertOK(sl)
+						isAst := x != nil && strings.HasPrefix(typeStr(t), "*go/ast.")
+						if !isPN(sl) && !nilCheck(sl) && !isAst {
+							return false
+						}
+					}
+					return true
+				}
+				return false
+			})
+			c.checkSitePosTONL(si, rule)
+			c.finishSite(si, rule)
 		})
-		c.checkSitePosTONL(si, rule)
-		c.finishSite(si, rule)
 	}
 	for _, code := range []string{"TONL01", "TONL02", "TONL03"} {
 		c.floor("report sites with code "+code, perCode[code], 1)
@@ -777,119 +797,121 @@ func (c *Ctx) ruleSitesPKGO() {
 	}
 	var atomSets []string
 	for _, s := range sites {
-		si := c.buildSiteInfo(s)
-		perCode[s.Code]++
-		c.checkFlow(si, rule)
-		f, ok := fams[s.Code]
-		if !ok {
-			c.fail(rule+"/SITE-CODE", si.Name, P.Pos(s.Alloc.Pos()), "packageonly report site with unexpected code "+s.Code)
-			continue
-		}
-		var detail string
-		var keyArgs []string
-		var keyVals []ssa.Value
-		detail = "no positive " + f.hasAny + " on an index built by BuildPackageOnlyIndex"
-		mem := si.take("has-any", c.indexCallPred(f.hasAny, "indexing.BuildPackageOnlyIndex", true, func(call *ssa.Call) (bool, string) {
-			keyArgs, keyVals = nil, nil
-			for _, a := range call.Call.Args[1:] {
-				keyArgs = append(keyArgs, P.Desc(a))
-				keyVals = append(keyVals, a)
+		c.inSiteContext(s, func() {
+			si := c.buildSiteInfo(s)
+			perCode[s.Code]++
+			c.checkFlow(si, rule)
+			f, ok := fams[s.Code]
+			if !ok {
+				c.fail(rule+"/SITE-CODE", si.Name, P.Pos(s.Alloc.Pos()), "packageonly report site with unexpected code "+s.Code)
+				return
 			}
-			return true, ""
-		}, &detail))
-		c.require(si, rule, "ANNOTATED(+)", mem, detail)
-
-		// declaring package itself is always allowed
-		same := si.take("other-package", func(l Lit) bool {
-			if l.Kind != "eq" || l.Pos {
-				return false
-			}
-			return (P.isPassPkgCall(l.X, "Path") && !P.isPassPkgCall(l.Y, "Path")) || (P.isPassPkgCall(l.Y, "Path") && !P.isPassPkgCall(l.X, "Path")) ||
-				(P.isPassPkgCall(l.X, "Path") && P.isPassPkgCall(l.Y, "Path") && strings.Contains(P.Desc(l.X)+P.Desc(l.Y), "|"))
-		})
-		// the identifier path first restricts itself to objects of the current package (and then can never report):
-		// a positive comparison of an object's package path with pass.Pkg.Path() is part of the same-package test
-		si.take("local-object", func(l Lit) bool {
-			if l.Kind != "eq" {
-				return false
-			}
-			// (pkg(obj) == current) == <local flag>: the merged form of the two same-package tests
-			for _, pr := range [][2]ssa.Value{{l.X, l.Y}, {l.Y, l.X}} {
-				if bo, ok := pr[0].(*ssa.BinOp); ok && (bo.Op == token.EQL || bo.Op == token.NEQ) {
-					isCmp := (P.isPassPkgCall(bo.X, "Path") && c.rootsAre(bo.Y, c.isPathCall)) || (P.isPassPkgCall(bo.Y, "Path") && c.rootsAre(bo.X, c.isPathCall))
-					if isCmp && P.RootsAll(pr[1], func(r ssa.Value) bool { _, isC := constBool(r); return isC }) {
-						return true
-					}
-				}
-			}
-			if !l.Pos {
-				return false
-			}
-			return (P.isPassPkgCall(l.X, "Path") && c.rootsAre(l.Y, c.isPathCall)) || (P.isPassPkgCall(l.Y, "Path") && c.rootsAre(l.X, c.isPathCall))
-		})
-		c.require(si, rule, "OTHER-PACKAGE(-eq)", same, "no guard pkg(D) != pass.Pkg.Path(): references from the declaring package itself would be reported")
-
-		// allowed iff path or name attached: both queries must be false, on the same item key
-		for _, q := range []struct{ what, method string }{{"ALLOWED-BY-PATH(-)", "Path"}, {"ALLOWED-BY-NAME(-)", "Name"}} {
-			detail = fmt.Sprintf("no negative %s(item, pass.Pkg.%s()) on the path to the report", f.hasPkg, q.method)
-			lits := si.take("allowed-"+q.method, c.indexCallPred(f.hasPkg, "indexing.BuildPackageOnlyIndex", false, func(call *ssa.Call) (bool, string) {
-				a := call.Call.Args
-				last := a[len(a)-1]
-				if !P.isPassPkgCall(last, q.method) {
-					return false, fmt.Sprintf("%s: no query whose last argument is pass.Pkg.%s() (found %s)", f.hasPkg, q.method, short(P.DescDeep(last)))
-				}
-				for i, x := range a[1 : len(a)-1] {
-					if i < len(keyArgs) && P.Desc(x) != keyArgs[i] {
-						return false, "allow-list query uses a different item key than the membership test"
-					}
+			var detail string
+			var keyArgs []string
+			var keyVals []ssa.Value
+			detail = "no positive " + f.hasAny + " on an index built by BuildPackageOnlyIndex"
+			mem := si.take("has-any", c.indexCallPred(f.hasAny, "indexing.BuildPackageOnlyIndex", true, func(call *ssa.Call) (bool, string) {
+				keyArgs, keyVals = nil, nil
+				for _, a := range call.Call.Args[1:] {
+					keyArgs = append(keyArgs, P.Desc(a))
+					keyVals = append(keyVals, a)
 				}
 				return true, ""
 			}, &detail))
-			c.require(si, rule, q.what, lits, detail)
-		}
+			c.require(si, rule, "ANNOTATED(+)", mem, detail)
 
-		// ignore gate at detection time: own code constant, own position
-		detail = "no guard !ignoreSet.Contains(<code of this site>, <pos of this site>) before the report (the reporter of this package is created without an ignore set)"
-		gate := si.take("ignore-gate", c.ignoreGatePred(
-			func(v ssa.Value) bool { return constString(firstRoot(P, v)) == s.Code },
-			func(v ssa.Value) bool { return s.PosVal != nil && P.Desc(v) == P.Desc(s.PosVal) }, &detail))
-		c.require(si, rule, "IGNORE-GATE(-)", gate, detail)
-
-		if s.Code == "PKGO01" {
-			detail = ""
-			dd := si.take("dedup", func(l Lit) bool {
-				if l.Kind != "cond" || l.Pos || l.Val == nil {
+			// declaring package itself is always allowed
+			same := si.take("other-package", func(l Lit) bool {
+				if l.Kind != "eq" || l.Pos {
 					return false
 				}
-				lk, ok := l.Val.(*ssa.Lookup)
-				if !ok {
+				return (P.isPassPkgCall(l.X, "Path") && !P.isPassPkgCall(l.Y, "Path")) || (P.isPassPkgCall(l.Y, "Path") && !P.isPassPkgCall(l.X, "Path")) ||
+					(P.isPassPkgCall(l.X, "Path") && P.isPassPkgCall(l.Y, "Path") && strings.Contains(P.Desc(l.X)+P.Desc(l.Y), "|"))
+			})
+			// the identifier path first restricts itself to objects of the current package (and then can never report):
+			// a positive comparison of an object's package path with pass.Pkg.Path() is part of the same-package test
+			si.take("local-object", func(l Lit) bool {
+				if l.Kind != "eq" {
 					return false
 				}
-				for _, kv := range keyVals {
-					want := P.Desc(kv)
-					found, _ := P.derives(lk.Index, func(v ssa.Value) bool { return v == kv || P.Desc(v) == want }, 8)
-					if !found {
-						detail = "PKGO01 dedup key does not contain both the package path and the type name"
-						return false
+				// (pkg(obj) == current) == <local flag>: the merged form of the two same-package tests
+				for _, pr := range [][2]ssa.Value{{l.X, l.Y}, {l.Y, l.X}} {
+					if bo, ok := pr[0].(*ssa.BinOp); ok && (bo.Op == token.EQL || bo.Op == token.NEQ) {
+						isCmp := (P.isPassPkgCall(bo.X, "Path") && c.rootsAre(bo.Y, c.isPathCall)) || (P.isPassPkgCall(bo.Y, "Path") && c.rootsAre(bo.X, c.isPathCall))
+						if isCmp && P.RootsAll(pr[1], func(r ssa.Value) bool { _, isC := constBool(r); return isC }) {
+							return true
+						}
 					}
 				}
-				return len(keyVals) == 2
+				if !l.Pos {
+					return false
+				}
+				return (P.isPassPkgCall(l.X, "Path") && c.rootsAre(l.Y, c.isPathCall)) || (P.isPassPkgCall(l.Y, "Path") && c.rootsAre(l.X, c.isPathCall))
 			})
-			if detail == "" {
-				detail = "no once-per-file dedup guard on the PKGO01 path"
+			c.require(si, rule, "OTHER-PACKAGE(-eq)", same, "no guard pkg(D) != pass.Pkg.Path(): references from the declaring package itself would be reported")
+
+			// allowed iff path or name attached: both queries must be false, on the same item key
+			for _, q := range []struct{ what, method string }{{"ALLOWED-BY-PATH(-)", "Path"}, {"ALLOWED-BY-NAME(-)", "Name"}} {
+				detail = fmt.Sprintf("no negative %s(item, pass.Pkg.%s()) on the path to the report", f.hasPkg, q.method)
+				lits := si.take("allowed-"+q.method, c.indexCallPred(f.hasPkg, "indexing.BuildPackageOnlyIndex", false, func(call *ssa.Call) (bool, string) {
+					a := call.Call.Args
+					last := a[len(a)-1]
+					if !P.isPassPkgCall(last, q.method) {
+						return false, fmt.Sprintf("%s: no query whose last argument is pass.Pkg.%s() (found %s)", f.hasPkg, q.method, short(P.DescDeep(last)))
+					}
+					for i, x := range a[1 : len(a)-1] {
+						if i < len(keyArgs) && P.Desc(x) != keyArgs[i] {
+							return false, "allow-list query uses a different item key than the membership test"
+						}
+					}
+					return true, ""
+				}, &detail))
+				c.require(si, rule, q.what, lits, detail)
 			}
-			c.require(si, rule, "DEDUP(-)", dd, detail)
-		}
-		// per-path dispatch: object kind and reference kind
-		c.pkgoDispatch(si, rule)
-		c.checkSitePos(si, rule)
-		c.finishSite(si, rule)
-		var used []string
-		for _, r := range si.used {
-			used = append(used, r)
-		}
-		sort.Strings(used)
-		atomSets = append(atomSets, strings.Join(dedupStrings(used), ","))
+
+			// ignore gate at detection time: own code constant, own position
+			detail = "no guard !ignoreSet.Contains(<code of this site>, <pos of this site>) before the report (the reporter of this package is created without an ignore set)"
+			gate := si.take("ignore-gate", c.ignoreGatePred(
+				func(v ssa.Value) bool { return constString(firstRoot(P, v)) == s.Code },
+				func(v ssa.Value) bool { return s.PosVal != nil && P.Desc(v) == P.Desc(s.PosVal) }, &detail))
+			c.require(si, rule, "IGNORE-GATE(-)", gate, detail)
+
+			if s.Code == "PKGO01" {
+				detail = ""
+				dd := si.take("dedup", func(l Lit) bool {
+					if l.Kind != "cond" || l.Pos || l.Val == nil {
+						return false
+					}
+					lk, ok := l.Val.(*ssa.Lookup)
+					if !ok {
+						return false
+					}
+					for _, kv := range keyVals {
+						want := P.Desc(kv)
+						found, _ := P.derives(lk.Index, func(v ssa.Value) bool { return v == kv || P.Desc(v) == want }, 8)
+						if !found {
+							detail = "PKGO01 dedup key does not contain both the package path and the type name"
+							return false
+						}
+					}
+					return len(keyVals) == 2
+				})
+				if detail == "" {
+					detail = "no once-per-file dedup guard on the PKGO01 path"
+				}
+				c.require(si, rule, "DEDUP(-)", dd, detail)
+			}
+			// per-path dispatch: object kind and reference kind
+			c.pkgoDispatch(si, rule)
+			c.checkSitePos(si, rule)
+			c.finishSite(si, rule)
+			var used []string
+			for _, r := range si.used {
+				used = append(used, r)
+			}
+			sort.Strings(used)
+			atomSets = append(atomSets, strings.Join(dedupStrings(used), ","))
+		})
 	}
 	for _, code := range []string{"PKGO01", "PKGO02", "PKGO03"} {
 		c.floor("report sites with code "+code, perCode[code], 1)
